@@ -286,7 +286,7 @@ func (m *monC01) afterProvider(c *Chain, req *abci.RequestFinalizeBlock, res *ab
 				w.Case("C12", "resolve:id>0")
 			} else {
 				// the id of the update that was still being collected while this block's transactions ran (produced by this block's
-			// EndBlock at the earliest): the previous block's EndBlock mapped it to this height
+				// EndBlock at the earliest): the previous block's EndBlock mapped it to this height
 				want = req.Height
 				w.Case("C12", "resolve:current-id")
 			}
